@@ -184,6 +184,8 @@ struct State {
 	quiet_requests: u64,
 	fired: Vec<(Fault, u32)>,
 	extras: Vec<Extra>,
+	/// Every header the source made up, with the fault class that made it up.
+	fabricated: Vec<(BlockHash, FaultClass)>,
 }
 
 pub struct MockSource {
@@ -215,6 +217,7 @@ impl MockSource {
 				quiet_requests: 0,
 				fired: Vec::new(),
 				extras: Vec::new(),
+				fabricated: Vec::new(),
 			}),
 		}
 	}
@@ -241,6 +244,9 @@ impl MockSource {
 	/// (fault, step in which it fired)
 	pub fn fired(&self) -> Vec<(Fault, u32)> {
 		self.st.lock().unwrap().fired.clone()
+	}
+	pub fn fabricated_by(&self, h: &BlockHash) -> Option<FaultClass> {
+		self.st.lock().unwrap().fabricated.iter().find(|(x, _)| x == h).map(|(_, c)| *c)
 	}
 	pub fn knows(&self, node: usize) -> bool {
 		let s = self.st.lock().unwrap();
@@ -314,6 +320,7 @@ impl MockSource {
 				let hash = block.block_hash();
 				let height = t.height[best] + 1;
 				let chainwork = t.work[best] + block.header.work();
+				s.fabricated.push((hash, c));
 				s.extras.push(Extra { hash, block, height, chainwork });
 				Ok((hash, Some(height)))
 			},
@@ -354,11 +361,13 @@ impl MockSource {
 				};
 				h.nonce = 0;
 				d.header = mine(h, true);
+				s.fabricated.push((d.header.block_hash(), FaultClass::HdrWrongPrev));
 			},
 			Some(FaultClass::HdrBadPow) => {
 				let mut h: Header = d.header;
 				h.nonce = h.nonce.wrapping_add(1);
 				d.header = mine(h, false);
+				s.fabricated.push((d.header.block_hash(), FaultClass::HdrBadPow));
 			},
 			Some(FaultClass::HdrHeightPlus) => d.height += 1,
 			Some(FaultClass::HdrHeightMinus) => d.height -= 1,
@@ -397,6 +406,7 @@ impl MockSource {
 				let mut h = block.header;
 				h.nonce = h.nonce.wrapping_add(1);
 				block.header = mine(h, true);
+				s.fabricated.push((block.header.block_hash(), FaultClass::BlkHeaderTampered));
 			},
 			Some(FaultClass::BlkBadMerkle) => {
 				let extra = block.txdata[0].clone();
